@@ -1724,6 +1724,8 @@ static size_t ZSTD_maxNbSeq(size_t blockSize, unsigned minMatch, int useSequence
 static ldmParams_t ZSTD_estimate_adjustLdmParams(const ldmParams_t* ldmParams, const ZSTD_compressionParameters* cParams)
 {
     ldmParams_t adjusted = *ldmParams;
+    /* ZSTD_ps_auto is resolved when a compression starts (ZSTD_CCtx_init_compressStream2()) : estimate for what it becomes */
+    adjusted.enableLdm = ZSTD_resolveEnableLdm(adjusted.enableLdm, cParams);
     if (adjusted.enableLdm == ZSTD_ps_enable) ZSTD_ldm_adjustParameters(&adjusted, cParams);
     return adjusted;
 }
